@@ -302,3 +302,33 @@ func init() {
 			New: "\tfor res = range localRes {\n\t\tif res.Status != solver.Sat {\n\t\t\tresults <- res\n\t\t\tcontinue\n\t\t}\n\t\tres.Model = res.Model[:s.firstRelax] // Remove relax vars from the model\n\t\tresults <- res", Expect: ""},
 	)
 }
+
+func init() {
+	addSeeds(
+		// ---- C02 normalisers (R2.3, R2.4) ----
+		seed{Prop: "C02", Name: "gteq-literal-not-negated", File: "solver/pb.go",
+			Old: "\t\t\tn += weights[i]\n\t\t\tlits[i] = -lits[i]\n", New: "\t\t\tn += weights[i]\n", Expect: "R2.3"},
+		seed{Prop: "C02", Name: "gteq-degree-not-raised", File: "solver/pb.go",
+			Old: "\t\t\tweights[i] = -weights[i]\n\t\t\tn += weights[i]\n", New: "\t\t\tweights[i] = -weights[i]\n", Expect: "R2.3"},
+		seed{Prop: "C02", Name: "gteq-degree-raised-by-negative", File: "solver/pb.go",
+			Old: "\t\t\tweights[i] = -weights[i]\n\t\t\tn += weights[i]\n", New: "\t\t\tn += weights[i]\n\t\t\tweights[i] = -weights[i]\n", Expect: "R2.3"},
+		seed{Prop: "C02", Name: "gteq-zero-term-skips-next", File: "solver/pb.go",
+			Old: "\t\t\tlits = append(lits[:i], lits[i+1:]...)\n\t\t\ti--\n", New: "\t\t\tlits = append(lits[:i], lits[i+1:]...)\n", Expect: "R2.3"},
+		seed{Prop: "C02", Name: "gteq-zero-term-keeps-literal", File: "solver/pb.go",
+			Old: "\t\t\tweights = append(weights[:i], weights[i+1:]...)\n\t\t\tlits = append(lits[:i], lits[i+1:]...)\n", New: "\t\t\tweights = append(weights[:i], weights[i+1:]...)\n", Expect: "R2.3"},
+		seed{Prop: "C02", Name: "lteq-degree-off-by-one", File: "solver/pb.go",
+			Old: "\tn = sum - n\n", New: "\tn = sum - n - 1\n", Expect: "R2.4"},
+		seed{Prop: "C02", Name: "lteq-literals-kept", File: "solver/pb.go",
+			Old: "\tfor i := range lits {\n\t\tlits[i] = -lits[i]\n\t\tsum += weights[i]\n\t}", New: "\tfor i := range lits {\n\t\tsum += weights[i]\n\t}", Expect: "R2.4"},
+		seed{Prop: "C02", Name: "atmost-degree-wrong", File: "solver/pb.go",
+			Old: "\treturn PBConstr{Lits: lits2, AtLeast: len(lits2) - n}", New: "\treturn PBConstr{Lits: lits2, AtLeast: len(lits2) - n - 1}", Expect: "R2.4"},
+		seed{Prop: "C02", Name: "atmost1-skips-first-literal", File: "solver/card.go",
+			Old: "\tfor i, lit := range lits {\n\t\tnegated[i] = -lit\n\t}", New: "\tfor i := 1; i < len(lits); i++ {\n\t\tnegated[i] = -lits[i]\n\t}", Expect: "R2.4"},
+		seed{Prop: "C02", Name: "eq-shares-slices", File: "solver/pb.go",
+			Old: "\tge := GtEq(lits2, weights2, n)", New: "\tge := GtEq(lits, weights, n)", Expect: "R2.4"},
+		seed{Prop: "C02", Name: "eq-keeps-trivial-side", File: "solver/pb.go",
+			Old: "\tif le.AtLeast > 0 {\n\t\tres = append(res, le)\n\t}", New: "\tres = append(res, le)", Expect: "R2.4"},
+		seed{Prop: "C02", Name: "benign-atmost1-indexed-loop", File: "solver/card.go",
+			Old: "\tfor i, lit := range lits {\n\t\tnegated[i] = -lit\n\t}", New: "\tfor i := 0; i < len(lits); i++ {\n\t\tnegated[i] = -lits[i]\n\t}", Expect: ""},
+	)
+}
